@@ -367,12 +367,22 @@ func (s *Spec) Step(ctx context.Context, st *State, pending interface{}, c *Cont
 			"lastNode", givenState.NodeName,
 			"lastBindings", map[string]interface{}(givenState.Bs.Copy()))
 		stride.To = &State{
-			NodeName: "error",
+			NodeName: s.errorNodeName(),
 			Bs:       bs,
 		}
 	}
 
 	return stride, err
+}
+
+// errorNodeName returns the name of the node for a machine that ran
+// into an error: the spec's ErrorNode (which is what Compile checks
+// for and adds) or, if that's not given, DefaultErrorNodeName.
+func (s *Spec) errorNodeName() string {
+	if s.ErrorNode != "" {
+		return s.ErrorNode
+	}
+	return DefaultErrorNodeName
 }
 
 // consider considers the Branches to determine the next state.
@@ -683,14 +693,14 @@ func (s *Spec) Walk(ctx context.Context, st *State, pendings []interface{}, c *C
 		// even when branching type is "message"!
 
 		if err != nil {
-			if st.NodeName == "error" {
+			if st.NodeName == s.errorNodeName() {
 				// We're already at an error.
 			} else {
 				errorBs, _ := st.Bs.Copy().Extendm("error", err.Error(),
 					"lastNode", st.NodeName,
 					"lastBindings", map[string]interface{}(st.Bs.Copy()))
 				stride.To = &State{
-					NodeName: "error",
+					NodeName: s.errorNodeName(),
 					Bs:       errorBs,
 				}
 			}
